@@ -119,7 +119,10 @@ func c18Run(symbolicConfig bool, L int) {
 			client := clients[sym.Choice("client", 2)]
 			amt := sdkmath.NewIntFromBigInt(sym.BigInt("amount", 100))
 			m := uint32(sym.Uint64Range("months", 0, 120))
-			d := []string{c18Denom, c18Other}[sym.Choice("licence-denom", 2)]
+			d := c18Denom
+			if L < 4 || step == 0 { // (4-operation histories: only the first operation may use the other coin)
+				d = []string{c18Denom, c18Other}[sym.Choice("licence-denom", 2)]
+			}
 			hadAccount := accs.Has(client)
 			_, hadLicence := pending[client.String()]
 			cctx, commit := ctx.CacheContext()
